@@ -73,6 +73,12 @@ func (c *compiler) compile() (string, error) {
 }
 
 func (c *compiler) write(bb *strings.Builder, i interface{}) {
+	if rv := reflect.ValueOf(i); rv.Kind() == reflect.Ptr && rv.IsNil() {
+		// a nil pointer has nothing to print, whatever its type implements
+		// (HTMLer, fmt.Stringer, ...): those methods need not expect a nil receiver
+		return
+	}
+
 	switch t := i.(type) {
 	case time.Time:
 		if dtf, ok := c.ctx.Value("TIME_FORMAT").(string); ok {
@@ -95,11 +101,6 @@ func (c *compiler) write(bb *strings.Builder, i interface{}) {
 	case uint, uint8, uint16, uint32, uint64, int, int8, int16, int32, int64, float32, float64:
 		bb.Write(unsafeGetBytes(fmt.Sprint(t)))
 	case fmt.Stringer:
-		if rv := reflect.ValueOf(t); rv.Kind() == reflect.Ptr && rv.IsNil() {
-			// a nil pointer has nothing to print; its String method
-			// need not be prepared for a nil receiver
-			return
-		}
 		bb.Write(unsafeGetBytes(t.String()))
 	case []string:
 		for _, ii := range t {
